@@ -255,4 +255,26 @@ example : expand ["u", "v"] ["k1", "k2"] = [[⟨"k1", 0, "u"⟩, ⟨"k2", 0, "u"
 example : ((Gen.mk true 3 []).run [1, 0, 2, 1]).fin = [1, 0] := by decide
 example : (firesOwn [(.created, "h1"), (.completed, "h2")] [.ready, .running, .completed]) = ["h1", "h2"] := by decide
 
+-- ------------------------------------------------------------------ the review rule of a generating act (open finding)
+
+/-- **partial** (`generator completes only after every generated act is terminal`, for histories without a skip or an error among
+the groups): the rule closes the act exactly when every child has succeeded -/
+theorem review_completes_iff_all_done_partial (cs : List Child) (h : ∀ c ∈ cs, c = .opn ∨ c = .success) :
+    (reviewRule cs = .completed ↔ ∀ c ∈ cs, c = .success) ∧ (reviewRule cs = .completed ∨ reviewRule cs = .stay) := by
+  induction cs with
+  | nil => simp [reviewRule]
+  | cons c cs ih =>
+    obtain ⟨ih1, ih2⟩ := ih (fun x hx => h x (List.mem_cons_of_mem _ hx))
+    rcases h c (by simp) with rfl | rfl
+    · rcases ih2 with h2 | h2 <;> simp [reviewRule, h2]
+    · simp only [reviewRule, List.mem_cons, forall_eq_or_imp, true_and]
+      exact ⟨ih1, ih2⟩
+
+/-- **the open finding on the rule** (`C16|generator-ends-before-groups|skip-one-group`): the full statement is false of the rule —
+one skipped group closes the generating act while another group is still open -/
+theorem review_skip_closes_early : ∃ cs : List Child, Child.opn ∈ cs ∧ reviewRule cs = .skipped :=
+  ⟨[.skipped, .opn, .opn], by simp, by decide⟩
+
+example : reviewRule [.success, .opn, .success] = .stay ∧ reviewRule [.success, .success] = .completed ∧ reviewRule [.opn, .skipped] = .skipped := by decide
+
 end Acts.C16
